@@ -34,7 +34,7 @@ func parseJSONValue(dec *json.Decoder) (*JNode, error) {
 	case json.Number:
 		i, err := strconv.ParseInt(string(t), 10, 64)
 		if err != nil {
-			return nil, fmt.Errorf("non-integer number %s not modelled", t)
+			return &JNode{kind: jNum, tok: string(t)}, nil
 		}
 		return &JNode{kind: jNum, num: IntC(i)}, nil
 	case string:
